@@ -192,7 +192,12 @@ def run_case(desc_i, def_i, flag_i, fmt_i, var_i, introspected: bool, after_clie
         cfg["remote_schema_url"] = "http://x/graphql"
     else:
         job["schema"] = sdl
-    if after_client:
+    if after_client == 2:
+        # history: another graphqlschema run (other variable names, Python target) happened earlier in this process on the same text
+        rc = gen.generate({"schema": sdl, "strategy": "graphqlschema", "config": {"target_file_path": "earlier_schema.py", "schema_variable_name": "earlier_schema", "type_map_variable_name": "earlier_types"}})
+        if not rc["ok"]:
+            return "gen_failed", [f"schema run before the schema run failed: {rc['exc_type']}: {rc['exc_msg'][:200]}"]
+    elif after_client:
         # history: the client strategy ran earlier in this process on the very same schema text (it adds @mixin to ITS schema)
         rc = gen.generate({"schema": sdl, "queries": "query Q { __typename }", "config": {}})
         if not rc["ok"]:
@@ -251,14 +256,21 @@ def _check(desc: int, dflt: int, flg: int, fmt: int, var: int, intro: bool) -> b
     return False
 
 
-def check_schema_after_client_run(desc: int, flg: int, fmt: int) -> bool:
+def check_schema_after_client_run(desc: int, flg: int, fmt: int, earlier_schema_run: bool) -> bool:
     """
     post: _
     """
     a, c, e = pick(desc, 3), pick(flg, NFLAG), pick(fmt, NFMT)
+    h = 2 if earlier_schema_run else 1
     with NoTracing():
         with opened_auditwall():
-            status, probs = run_case(a, 4, c, e, 0, False, True)
+            # every path starts from freshly imported generator modules: the history under test is the one built inside this path,
+            # not what earlier explored paths left behind (and the counterexample replays in a fresh interpreter)
+            import sys
+
+            for k in [k for k in sys.modules if k == "ariadne_codegen" or k.startswith("ariadne_codegen.")]:
+                del sys.modules[k]
+            status, probs = run_case(a, 4, c, e, 0, False, h)
     return status in ("ok", "invalid_case")
 
 
